@@ -686,6 +686,51 @@ def validation_before_imports(index: RepoIndex, rep, rule: str) -> None:
                             'schema-predicate rule (imports happen after validation) is gone')
 
 
+def _required_keyword(index: RepoIndex) -> Optional[str]:
+    """name of an optional keyword of FunctionRegistry.get_nonprotocol_parameters (added after
+    the pinned tree) that restricts the result to the parameters without (True) / with (False)
+    a default and leaves it alone for None: `if <kw> is None: return P` followed by `return [p
+    for p in P if (p.default is inspect.Parameter.empty) == <kw>]`"""
+    hit = getattr(index, '_required_kw', None)
+    if hit is not None:
+        return hit or None
+    found = ''
+    try:
+        reg = index.cls('gym_gridverse/utils/registry.py', 'FunctionRegistry')
+        m = reg.methods.get('get_nonprotocol_parameters')
+    except Exception:       # noqa: BLE001
+        m = None
+    if m is not None:
+        d = m.param_defaults()
+        cands = [a.arg for a in m.node.args.kwonlyargs + m.node.args.args[2:]
+                 if isinstance(d.get(a.arg), ast.Constant) and d[a.arg].value is None]
+        body = [s_ for s_ in m.node.body if not (isinstance(s_, ast.Expr)
+                                                 and isinstance(s_.value, ast.Constant))]
+        for c in cands:
+            if len(body) >= 3 and isinstance(body[-2], ast.If) and not body[-2].orelse and \
+                    src(body[-2].test) == f'{c} is None' and len(body[-2].body) == 1 and \
+                    isinstance(body[-2].body[0], ast.Return) and \
+                    isinstance(body[-2].body[0].value, ast.Name) and \
+                    isinstance(body[-1], ast.Return) and \
+                    isinstance(body[-1].value, ast.ListComp) and \
+                    len(body[-1].value.generators) == 1:
+                P = body[-2].body[0].value.id
+                lc = body[-1].value
+                g = lc.generators[0]
+                v = src(g.target)
+                if src(g.iter) == P and src(lc.elt) == v and len(g.ifs) == 1 and \
+                        src(g.ifs[0]).replace(' ', '') in (
+                            f'({v}.defaultisinspect.Parameter.empty)=={c}',
+                            f'{c}==({v}.defaultisinspect.Parameter.empty)',
+                            f'({v}.defaultisinspect.Parameter.empty)is{c}'):
+                    found = c
+    try:
+        index._required_kw = found
+    except Exception:       # noqa: BLE001
+        pass
+    return found or None
+
+
 def factory_rules(index: RepoIndex, rep, rule: str) -> None:
     """the six `factory(name, **kwargs)` functions are siblings with the documented pipeline
     (also registered as C12.R4: a reward / termination component obtained by name receives
@@ -775,8 +820,24 @@ def factory_rules(index: RepoIndex, rep, rule: str) -> None:
                 v_ = g_.target.id
                 if src(e.elt) != f'{v_}.name':
                     return None
+                it_ = g_.iter
+                pre = 'all'
+                rq = _required_keyword(index)
+                if rq and isinstance(it_, ast.Call) and isinstance(it_.func, ast.Attribute) \
+                        and it_.func.attr == 'get_nonprotocol_parameters':
+                    kws = {k.arg: k.value for k in it_.keywords}
+                    if set(kws) - {rq}:
+                        return None
+                    if rq in kws:
+                        if not (isinstance(kws[rq], ast.Constant) and
+                                kws[rq].value in (True, False, None)):
+                            return None
+                        pre = {True: 'req', False: 'opt', None: 'all'}[kws[rq].value]
+                        it_ = ast.Call(it_.func, it_.args, [])
                 if not g_.ifs:
-                    return (src(g_.iter), 'all')
+                    return (src(it_), pre)
+                if pre != 'all':
+                    return None
                 if len(g_.ifs) == 1:
                     t_ = src(g_.ifs[0])
                     if t_ == f'{v_}.default is inspect.Parameter.empty':
